@@ -130,7 +130,7 @@ CHECKS = {
               "io.EOF exactly when nothing remains, n<=0 on a fresh handle returns everything with nil; after a mid-way n<=0 only 'nil/EOF error, no panic' is asserted. non-trivial = >=2 children and >=2 positive page sizes"),
         assumptions=["directories are not mutated between pages", OS_ASSUMPTION],
         legs=[dict(name=k, run="^Test%s$" % n, quick=q, thorough=q * 10, shards=2) for (k, n, q) in [
-            ("mem", "Mem", 250), ("kvplain", "KVPlain", 150), ("mount", "Mount", 150), ("submem", "SubMem", 100), ("cache", "Cache", 150), ("tar", "Tar", 100), ("osfs", "OSFS", 100)]],
+            ("mem", "Mem", 250), ("kvplain", "KVPlain", 150), ("mount", "Mount", 150), ("mountnested", "MountNested", 100), ("submem", "SubMem", 100), ("cache", "Cache", 150), ("tar", "Tar", 100), ("osfs", "OSFS", 100)]],
     ),
     "C17": dict(
         pkg="c17", level="exploration",
